@@ -9,8 +9,18 @@
 // (1, 2, 3) are mapped onto distinct fixture blocks; the requested point is the
 // slot/hash of the block with the case's identity p.
 //
+// The client's callback configuration is part of the case (cfg: which of BlockFunc,
+// BlockRawFunc, BatchDoneFunc are set); blockfetch.Config is built from the row.
+// Deliveries and BatchDoneFunc invocations are attributed to the request the raw
+// peer received last, not to what the caller is doing: a follow-up request may be
+// issued while the previous range batch is still in flight (it then waits for the
+// busy lock inside the library), and without a BatchDoneFunc that is the only way
+// to issue it. Whether the follow-up is issued eagerly or after the batch was seen
+// completing is drawn from the case seed; the model covers both (Acquire is
+// enabled only when the lock is free).
+//
 // The observed outcome (per call: ok<block id> / err / nil, blocks handed to
-// BlockFunc in order, BatchDoneFunc count) must be one of the outcomes TLC
+// the block callback in order, BatchDoneFunc count) must be one of the outcomes TLC
 // reached for that case ("allowed", terminal states of the model). A call that
 // has not returned after the deadline although every outcome of the model
 // returns is reported as a hang only if the goroutine dump shows the calling
@@ -68,6 +78,10 @@ type caseRow struct {
 	Close   bool      `json:"close"`
 	Follow  string    `json:"follow"`
 	Fp      int       `json:"fp"`
+	Cfg     string    `json:"cfg"` // callback configuration; "" (old replay files) = "bf+bdf"
+	Bf      bool      `json:"bf"`
+	Raw     bool      `json:"raw"`
+	Bdf     bool      `json:"bdf"`
 	Allowed []outcome `json:"allowed"`
 	Idx     int       `json:"idx"`
 	Rseed   *int64    `json:"rseed,omitempty"`
@@ -170,6 +184,7 @@ type peer struct {
 	received atomic.Int32
 	written  chan struct{} // closed when the last script has been written (and the close done)
 	problem  atomic.Value
+	down     atomic.Bool // the connection went down under the peer while it was writing a script
 }
 
 func (p *peer) run() {
@@ -201,8 +216,14 @@ func (p *peer) run() {
 					continue
 				}
 				for _, m := range p.scripts[k] {
-					if !p.write(sendCh, doneCh, m) {
-						p.problem.Store("raw peer could not write its script")
+					switch p.write(sendCh, doneCh, m) {
+					case writeTimeout:
+						p.problem.Store("raw peer could not write its script (muxer did not take a segment within 60s)")
+					case writeDown:
+						// the peer itself closes only after its last script: the other side (the client
+						// under test) took the connection down. That is behaviour, not a harness failure:
+						// the observed outcome decides.
+						p.down.Store(true)
 					}
 				}
 				p.answered.Add(1)
@@ -219,8 +240,14 @@ func (p *peer) run() {
 	}()
 }
 
+const (
+	writeOK = iota
+	writeDown
+	writeTimeout
+)
+
 // write sends one message as 1..3 segments and waits until the muxer has written them.
-func (p *peer) write(sendCh chan *muxer.Segment, doneCh chan bool, m []byte) bool {
+func (p *peer) write(sendCh chan *muxer.Segment, doneCh chan bool, m []byte) int {
 	parts := 1 + p.rng.Intn(3)
 	for len(m) > 0 {
 		n := len(m)
@@ -237,23 +264,23 @@ func (p *peer) write(sendCh chan *muxer.Segment, doneCh chan bool, m []byte) boo
 		select {
 		case sendCh <- seg:
 		case <-doneCh:
-			return false
+			return writeDown
 		case <-time.After(60 * time.Second):
-			return false
+			return writeTimeout
 		}
 		select {
 		case err := <-dc:
 			if err != nil {
-				return false
+				return writeDown
 			}
 		case <-doneCh:
-			return false
+			return writeDown
 		case <-time.After(60 * time.Second):
-			return false
+			return writeTimeout
 		}
 		m = m[n:]
 	}
-	return true
+	return writeOK
 }
 
 // ---------------------------------------------------------------- goroutine inspection
@@ -319,10 +346,22 @@ func handlerEvidence(dump string, clientPtr string) string {
 // ---------------------------------------------------------------- one case
 
 type recorder struct {
-	mu    sync.Mutex
-	deliv []int
-	bd    int
+	mu     sync.Mutex
+	delivF []int // blocks BlockFunc received
+	delivR []int // blocks BlockRawFunc received
+	bd     int
 }
+
+// deliv is what "the block callback" received. With both callbacks configured the property
+// does not say which one is used: either is accepted (the one that received more).
+func (rc *recorder) deliv() []int {
+	if len(rc.delivR) >= len(rc.delivF) {
+		return append([]int{}, rc.delivR...)
+	}
+	return append([]int{}, rc.delivF...)
+}
+
+const defaultCfg = "bf+bdf"
 
 func shapeName(c *caseRow) string {
 	if c.Nob {
@@ -343,7 +382,12 @@ func b2i(b bool) int {
 }
 
 func caseKey(c *caseRow) string {
-	return fmt.Sprintf("mode=%s:p=%d:shape=%s:close=%d:follow=%s", c.Mode, c.P, shapeName(c), b2i(c.Close), c.Follow)
+	k := fmt.Sprintf("mode=%s:p=%d:shape=%s:close=%d:follow=%s", c.Mode, c.P, shapeName(c), b2i(c.Close), c.Follow)
+	if c.Cfg != defaultCfg {
+		// the configuration every case had before it became a dimension keeps its key
+		k += ":cfg=" + c.Cfg
+	}
+	return k
 }
 
 type call struct {
@@ -359,6 +403,7 @@ type result struct {
 	notes    []string
 	dead     string
 	maxRetMs int64
+	eager    bool
 }
 
 var deadline = 10 * time.Second
@@ -368,9 +413,20 @@ func runCase(c *caseRow, fx []fixture, seed int64) (r result) {
 	// abstract identities 1..3 -> three distinct fixtures, rotating with the case index and the seed
 	perm := rng.Perm(len(fx))
 	fix := func(id int) fixture { return fx[perm[(id-1)%len(perm)]] }
+	// follow-up issued right after the first call returned (batch possibly in flight) or after
+	// the batch was seen completing (BatchDoneFunc; without one: all its blocks delivered)
+	r.eager = rng.Intn(2) == 0
 	idOf := func(h []byte) int {
 		for id := 1; id <= 3; id++ {
 			if bytes.Equal(fix(id).hash, h) {
+				return id
+			}
+		}
+		return -1
+	}
+	idOfRaw := func(raw []byte) int {
+		for id := 1; id <= 3; id++ {
+			if bytes.Equal(fix(id).raw, raw) {
 				return id
 			}
 		}
@@ -417,26 +473,57 @@ func runCase(c *caseRow, fx []fixture, seed int64) (r result) {
 	for i := range recs {
 		recs[i] = &recorder{}
 	}
-	var cur atomic.Int32 // index of the call whose batch is running (set by the caller before each call)
-	cfg, err := blockfetch.NewConfig(
-		blockfetch.WithBlockFunc(func(_ blockfetch.CallbackContext, _ uint, b ledger.Block) error {
-			rc := recs[cur.Load()]
+	pr := &peer{mb: mb, scripts: scripts, closeEnd: c.Close, rng: rand.New(rand.NewSource(seed + 17)), written: make(chan struct{})}
+	// the batch a callback belongs to is the one of the request the peer received last
+	// (the blocks of request k are written after it was received, and request k+1 is sent
+	// only after the client gave the busy lock back)
+	curRec := func() *recorder {
+		k := int(pr.received.Load()) - 1
+		if k < 0 {
+			k = 0
+		}
+		if k >= len(recs) {
+			k = len(recs) - 1
+		}
+		return recs[k]
+	}
+	opts := []blockfetch.BlockFetchOptionFunc{
+		// state timeouts are C14's subject: keep them out of the way of a loaded machine
+		blockfetch.WithBatchStartTimeout(10 * time.Minute),
+		blockfetch.WithBlockTimeout(10 * time.Minute),
+	}
+	if c.Bf {
+		opts = append(opts, blockfetch.WithBlockFunc(func(_ blockfetch.CallbackContext, _ uint, b ledger.Block) error {
+			id := -3 // BlockFunc called without a block
+			if b != nil {
+				id = idOf(b.Hash().Bytes())
+			}
+			rc := curRec()
 			rc.mu.Lock()
-			rc.deliv = append(rc.deliv, idOf(b.Hash().Bytes()))
+			rc.delivF = append(rc.delivF, id)
 			rc.mu.Unlock()
 			return nil
-		}),
-		blockfetch.WithBatchDoneFunc(func(_ blockfetch.CallbackContext) error {
-			rc := recs[cur.Load()]
+		}))
+	}
+	if c.Raw {
+		opts = append(opts, blockfetch.WithBlockRawFunc(func(_ blockfetch.CallbackContext, _ uint, raw []byte) error {
+			rc := curRec()
+			rc.mu.Lock()
+			rc.delivR = append(rc.delivR, idOfRaw(raw))
+			rc.mu.Unlock()
+			return nil
+		}))
+	}
+	if c.Bdf {
+		opts = append(opts, blockfetch.WithBatchDoneFunc(func(_ blockfetch.CallbackContext) error {
+			rc := curRec()
 			rc.mu.Lock()
 			rc.bd++
 			rc.mu.Unlock()
 			return nil
-		}),
-		// state timeouts are C14's subject: keep them out of the way of a loaded machine
-		blockfetch.WithBatchStartTimeout(10*time.Minute),
-		blockfetch.WithBlockTimeout(10*time.Minute),
-	)
+		}))
+	}
+	cfg, err := blockfetch.NewConfig(opts...)
 	if err != nil {
 		r.dead = "blockfetch.NewConfig: " + err.Error()
 		return
@@ -449,7 +536,6 @@ func runCase(c *caseRow, fx []fixture, seed int64) (r result) {
 		Mode:         protocol.ProtocolModeNodeToNode,
 		Role:         protocol.ProtocolRoleClient,
 	}, &cfg)
-	pr := &peer{mb: mb, scripts: scripts, closeEnd: c.Close, rng: rand.New(rand.NewSource(seed + 17)), written: make(chan struct{})}
 	pr.run()
 	client.Start()
 	ma.Start()
@@ -463,8 +549,11 @@ func runCase(c *caseRow, fx []fixture, seed int64) (r result) {
 	snapshot := func() {
 		for i, rc := range recs {
 			rc.mu.Lock()
-			r.obs.Deliv[i] = append([]int{}, rc.deliv...)
+			r.obs.Deliv[i] = rc.deliv()
 			r.obs.Bd[i] = rc.bd
+			if len(rc.delivR) > 0 && len(rc.delivF) > 0 {
+				r.notes = append(r.notes, fmt.Sprintf("call %d: both BlockRawFunc (%v) and BlockFunc (%v) were invoked", i+1, rc.delivR, rc.delivF))
+			}
 			rc.mu.Unlock()
 		}
 	}
@@ -491,7 +580,6 @@ func runCase(c *caseRow, fx []fixture, seed int64) (r result) {
 	}()
 
 	for i, cl := range calls {
-		cur.Store(int32(i))
 		f := fix(cl.p)
 		point := pcommon.NewPoint(f.slot, f.hash)
 		type ret struct {
@@ -599,19 +687,32 @@ func runCase(c *caseRow, fx []fixture, seed int64) (r result) {
 		}
 		r.obs.Res = append(r.obs.Res, got.cr)
 		if cl.mode == "range" && got.cr.Ret == "nil" {
-			// the batch goes on in the background: wait until it completes or the engine is down
+			if i < len(calls)-1 && r.eager {
+				// the follow-up is issued at once: it has to wait inside the library until the
+				// batch is done and the lock is free
+				continue
+			}
+			// the batch goes on in the background: wait until it is seen completing (BatchDoneFunc;
+			// without one: every served block delivered) or the engine is down
 			t1 := time.Now()
 			for {
 				recs[i].mu.Lock()
-				bd := recs[i].bd
+				bd, nd := recs[i].bd, len(recs[i].delivR)
+				if len(recs[i].delivF) > nd {
+					nd = len(recs[i].delivF)
+				}
 				recs[i].mu.Unlock()
-				if bd > 0 || client.IsDone() {
+				if (c.Bdf && bd > 0) || (!c.Bdf && nd >= len(cl.blocks)) || client.IsDone() {
 					break
 				}
 				if time.Since(t1) > 2*deadline {
-					r.obs.Res[len(r.obs.Res)-1].Ret = "nil-nocomplete"
-					r.notes = append(r.notes, fmt.Sprintf("range call %d: neither BatchDoneFunc nor shutdown %.0fs after the batch started", i+1, time.Since(t1).Seconds()))
-					return
+					if c.Bdf {
+						r.obs.Res[len(r.obs.Res)-1].Ret = "nil-nocomplete"
+						r.notes = append(r.notes, fmt.Sprintf("range call %d: neither BatchDoneFunc nor shutdown %.0fs after the batch started", i+1, time.Since(t1).Seconds()))
+						return
+					}
+					r.notes = append(r.notes, fmt.Sprintf("range call %d: %d of %d blocks delivered %.0fs after the batch started", i+1, nd, len(cl.blocks), time.Since(t1).Seconds()))
+					break
 				}
 				time.Sleep(500 * time.Microsecond)
 			}
@@ -630,6 +731,9 @@ func runCase(c *caseRow, fx []fixture, seed int64) (r result) {
 	time.Sleep(20 * time.Millisecond) // surplus callbacks would show up now
 	if s, ok := pr.problem.Load().(string); ok {
 		r.dead = caseKey(c) + ": " + s
+	}
+	if pr.down.Load() {
+		r.notes = append(r.notes, "the connection went down under the raw peer while it was still writing a script (the client side ended it)")
 	}
 	return
 }
@@ -667,6 +771,8 @@ func main() {
 	var mu sync.Mutex
 	hangs, maxRet := 0, int64(0)
 	obsClasses := map[string]int{}
+	byCfg := map[string]int{}
+	eagerFollow := 0
 	var deadMsg atomic.Value
 	for w := 0; w < workers; w++ {
 		wg.Add(1)
@@ -674,6 +780,9 @@ func main() {
 			defer wg.Done()
 			for i := range jobs {
 				c := &rows[i]
+				if c.Cfg == "" {
+					c.Cfg, c.Bf, c.Bdf = defaultCfg, true, true
+				}
 				if len(c.Allowed) == 0 {
 					deadMsg.Store("case without allowed outcomes: " + caseKey(c))
 					continue
@@ -707,6 +816,10 @@ func main() {
 				if strings.Contains(r.obsName, "hang") {
 					hangs++
 				}
+				byCfg[c.Cfg]++
+				if c.Mode == "range" && c.Follow != "none" && r.eager {
+					eagerFollow++
+				}
 				obsClasses[c.Mode+":"+shapeName(c)+":close="+strconv.Itoa(b2i(c.Close))+" -> "+strings.SplitN(r.obsName, ",", 2)[0]]++
 				mu.Unlock()
 				if c.Idx%17 == int(seed%17) {
@@ -732,6 +845,9 @@ func main() {
 	rep.Extra["c23_calls_reported_hanging"] = hangs
 	rep.Extra["c23_slowest_returning_call_ms"] = maxRet
 	rep.Extra["c23_hang_deadline_ms"] = deadline.Milliseconds()
+	rep.Extra["c23_cases_by_callback_configuration"] = byCfg
+	rep.Extra["c23_followups_issued_while_the_range_batch_may_be_in_flight"] = eagerFollow
+	rep.Extra["c23_not_judged"] = "a range batch that carries blocks on a client without any block callback (the property is silent); with both BlockFunc and BlockRawFunc set either may receive the blocks"
 	if len(obsClasses) <= 100 {
 		rep.Extra["c23_first_call_observed_by_shape"] = obsClasses
 	} else {
